@@ -404,9 +404,13 @@ class LogWarperComponent(OutputWarper):
     labels_arr = labels_arr.flatten()
     finite_mask = np.isfinite(labels_arr)
 
-    norm_diff = (self._labels_max - labels_arr[finite_mask]) / (
-        self._labels_max - self._labels_min
-    )
+    if self._labels_max > self._labels_min:
+      norm_diff = (self._labels_max - labels_arr[finite_mask]) / (
+          self._labels_max - self._labels_min
+      )
+    else:
+      # Constant labels: every value is the best one (not 0/0).
+      norm_diff = np.zeros_like(labels_arr[finite_mask])
     labels_arr[finite_mask] = 0.5 - (
         np.log1p(norm_diff * (self.offset - 1)) / np.log(self.offset)
     )
@@ -708,9 +712,19 @@ class TransformToGaussian(OutputWarper):
       base_for_transform = stats.rankdata(labels_arr_flattened, method='dense')
     else:
       base_for_transform = labels_arr_flattened
-    base_for_transform_normalized = (
-        base_for_transform - np.min(base_for_transform)
-    ) / (np.max(base_for_transform) - np.min(base_for_transform))
+    # NaN (infeasible) entries stay NaN instead of turning every label into
+    # NaN, and constant labels map to the middle of the unit interval instead
+    # of 0/0.
+    if np.all(np.isnan(base_for_transform)):
+      return labels_arr
+    low = np.nanmin(base_for_transform)
+    high = np.nanmax(base_for_transform)
+    if high > low:
+      base_for_transform_normalized = (base_for_transform - low) / (high - low)
+    else:
+      base_for_transform_normalized = np.where(
+          np.isnan(base_for_transform), np.nan, 0.5
+      )
     clip = tfp.bijectors.SoftClip(
         low=np.array(self.softclip_low, dtype=labels_arr.dtype),
         high=np.array(self.softclip_high, dtype=labels_arr.dtype),
